@@ -61,6 +61,34 @@ theorem reversed_key_negated (readVals : Str → Except Exc (List FVal)) (colOf 
       simp only
       cases vals[vi]? <;> rfl
 
+/-! ### the call terminates: where the model can fail to
+
+  Every loop of the model is a recursion over the lines still to be read, so the model's history() always
+  produces an outcome; "does not terminate" is the explicit outcome `LErr.diverges`, compared on every run with the
+  real call under a timeout (and, on files cut at arbitrary places, with the real reader: the model is `diverges`
+  exactly where the reader gives no answer).  `diverges` has three sources, all at end of file: -/
+
+/-- `skip_to_nonblank` (`while not self.readline().strip()`) spins exactly when only blank lines are left -/
+theorem skip_to_nonblank_spins_iff (rest : List Str) (n : Nat) :
+    skipToNonblankL rest n = none ↔ ∀ l ∈ rest, isBlank l = true :=
+  Proofs.File.skipToNonblank_spins_iff rest n
+
+/-- a `while not <condition>: line = readline()` loop without an end-of-file test (e.g. `skip_to_results_line`, the
+    `'total time'` loop of setup_pos_TOUGH2, skip_table_AUTOUGH2) spins exactly when neither a remaining line nor the
+    `''` read at end of file satisfies its condition -/
+theorem read_until_spins_iff (stop : Str → Bool) (eofStops : Bool) (rest : List Str) (n : Nat) :
+    readUntilL stop eofStops rest n = none ↔ (eofStops = false ∧ stop [] = false ∧ ∀ l ∈ rest, stop l = false) :=
+  Proofs.File.readUntil_spins_iff stop eofStops rest n
+
+/-- `skipto` tests for end of file, and whenever a line is left it consumes at least one: so the `while tname !=
+    tablename: skipto(...); tname = next_table()` loops of skip_to_table_* — which the model declares divergent only
+    when an iteration leaves the file position unchanged — can spin only at end of file -/
+theorem skipto_progresses (kws : List Str) (start : Nat) (l : Str) (r : List Str) (n : Nat) :
+    (skipToL kws start (l :: r) n).2.no > n :=
+  Proofs.File.skipTo_progress kws start l r n
+
+example : skipToNonblankL [[' ', '\n'], ['\n']] 0 = none ∧ (skipToNonblankL [[' ', '\n'], ['x', '\n']] 0).isSome = true := by decide
+
 /-! ### afterwards the reader still shows the same current time and tables as before the call -/
 
 /-- For the whole-file model: a history() call that returns (any selection, with or without short output, from any
